@@ -23,7 +23,7 @@ RULE = (
     "{1e-3,0.1,1,5,50}, or identity/pm designs), magnitudes absolute (scalar or per variable) or relative (fraction of "
     "the bound range, finite bounds), boundary types scalar or per variable over {NONE,TRUNCATE_BOTH,MIRROR_BOTH}, bounds "
     "finite/infinite/mixed, 30% of the samplers keep (and re-issue) the arrays they returned, masks, variable scale/offset transforms in 35% of runs, 1-2 inject samplers on disjoint "
-    "variable sets. Non-trivial = at least one perturbed vector compared and some perturbation left the bounds; "
+    "variable sets; in 20% of runs the simulated evaluator works in place on the array of variables it is handed (functions, gradient alone at the cached point, both at once). Non-trivial = at least one perturbed vector compared and some perturbation left the bounds; "
     "distinct = coarse scenario key + boundary types + amplitude."
 )
 ASSUMPTIONS = [
